@@ -54,3 +54,10 @@ Proof. vm_compute. repeat split; reflexivity. Qed.
    the model's PClose / IClose stand for <close/> in both directions there *)
 Lemma tbl_ws_framing : sc_negotiator_records_ws = true /\ sc_reader_ws_close_is_eof = true.
 Proof. vm_compute. split; reflexivity. Qed.
+
+(* the critical sections of the state mutex contain no call that can block (no
+   write to the connection or into the encoder, no read, no other lock, no yield
+   point): the model may perform each of them as a single operation, and nobody
+   holds the mutex while waiting for the peer *)
+Lemma tbl_statelock : sc_statelock_blocking_calls = [].
+Proof. vm_compute. reflexivity. Qed.
